@@ -195,7 +195,7 @@ int cp_vbnn_ver(const ec_t r, const bn_t z, const bn_t h, const uint8_t *id,
 	uint8_t *buf = NULL, *buf_i, hash[RLC_MD_LEN];
 	bn_t n, c, _h;
 	ec_t Z, t;
-	int result = 0;
+	int valid = 1, result = 0;
 
 	/* zero variables */
 	bn_null(n);
@@ -212,7 +212,7 @@ int cp_vbnn_ver(const ec_t r, const bn_t z, const bn_t h, const uint8_t *id,
 		ec_new(t);
 
 		/* calculate c */
-		len = id_len + msg_len + 2 * ec_size_bin(r, 1);
+		len = id_len + msg_len + 2 * (RLC_FC_BYTES + 1);
 		buf = RLC_ALLOCA(uint8_t, len);
 		if (buf == NULL) {
 			RLC_THROW(ERR_NO_MEMORY);
@@ -220,6 +220,23 @@ int cp_vbnn_ver(const ec_t r, const bn_t z, const bn_t h, const uint8_t *id,
 
 		/* get order of ECC group */
 		ec_curve_get_ord(n);
+
+		/* Check that the signature components and keys are well-formed. */
+		if (bn_sign(z) == RLC_NEG || bn_cmp(z, n) != RLC_LT ||
+				bn_sign(h) == RLC_NEG || bn_cmp(h, n) != RLC_LT ||
+				ec_is_infty(r) || !ec_on_curve(r) ||
+				ec_is_infty(mpk) || !ec_on_curve(mpk)) {
+			valid = 0;
+		}
+		ec_curve_get_cof(c);
+		if (valid && bn_cmp_dig(c, 1) != RLC_EQ) {
+			/* Plain binary method: ec_mul() reduces the scalar modulo n. */
+			RLC_CAT(RLC_EC_LOWER, mul_basic)(t, mpk, n);
+			RLC_CAT(RLC_EC_LOWER, mul_basic)(Z, r, n);
+			if (!ec_is_infty(t) || !ec_is_infty(Z)) {
+				valid = 0;
+			}
+		}
 
 		buf_i = buf;
 		memcpy(buf_i, id, id_len);
@@ -256,7 +273,7 @@ int cp_vbnn_ver(const ec_t r, const bn_t z, const bn_t h, const uint8_t *id,
 		bn_mod(_h, _h, n);
 		RLC_FREE(buf);
 
-		if (bn_cmp(h, _h) == RLC_EQ) {
+		if (valid && bn_cmp(h, _h) == RLC_EQ) {
 			result = 1;
 		} else {
 			result = 0;
